@@ -15,7 +15,8 @@
  *                              x_{i+1} = (5 x_i + 113) & 255, hi_i = ((seed >> 8) + i / 256) & 255
  *   NOHALT                     callbacks keep being delivered after a restart / upgrade reboot was requested
  *                              (system_restart() is asynchronous on the ESP8266)
- *   DISC [1]                   disconnect callback (1: reconnect/error callback)
+ *   DISC [1]                   disconnect callback (1: reconnect/error callback with ESPCONN_CONN)
+ *   ERR code                   reconnect (error) callback with the espconn error code (-8 ABRT, -9 RST, -10 CLSD, ...)
  *   ARENA                      segments are handed over inside a large zeroed buffer (reads past the
  *                              segment return 00 instead of trapping under ASan)
  * outputs:
@@ -155,6 +156,11 @@ static void run_case(int n, char **lines) {
         e->recv_callback(e, seg, (unsigned short)len);
         free(seg);
       }
+    }
+    else if (!strncmp(l, "ERR", 3)) {                /* ERR code: the reconnect (error) callback with an espconn error code */
+      if (!started || halted) continue;
+      struct espconn *e = c18_conn();
+      if (e->proto.tcp->reconnect_callback) e->proto.tcp->reconnect_callback(e, (sint8)atoi(l + 3));
     }
     else if (!strncmp(l, "DISC", 4)) {
       if (!started || halted) continue;
